@@ -56,12 +56,32 @@ pub fn batch_inversion_case<E: FieldElement>(name: &str, len: usize, zero_at: &[
             v[z] = E::ZERO;
         }
     }
-    s.evals += 1;
     if !zero_at.is_empty() {
         s.nontrivial += 1;
     }
-    let key = format!("{name}/batch_inversion/len={len}/zeros={zero_at:?}{tag}");
-    match mck::catch(|| batch_inversion(&v)) {
+    batch_inversion_values(name, &v, &format!("len={len}/zeros={zero_at:?}"), tag, s);
+    // the same zero pattern on a vector of inverse pairs (x, 1/x, y, 1/y, ...): the product of every
+    // even-aligned run of non-zero inputs is exactly ONE
+    if len >= 2 && (len <= 8 || len >= 1023) {
+        let mut w: Vec<E> = (0..len).map(|i| if i % 2 == 0 { label::<E>(i) } else { label::<E>(i - 1).inv() }).collect();
+        for &z in zero_at {
+            if z + 1 < len {
+                // zero a whole pair so that the remaining product stays ONE
+                w[z & !1] = E::ZERO;
+                w[(z & !1) + 1] = E::ZERO;
+            }
+        }
+        s.nontrivial += 1;
+        batch_inversion_values(name, &w, &format!("len={len}/inverse-pairs/zeros={zero_at:?}"), tag, s);
+    }
+}
+
+/// batch_inversion on a given vector against element-wise inversion (zero stays zero)
+pub fn batch_inversion_values<E: FieldElement>(name: &str, v: &[E], desc: &str, tag: &str, s: &mut Sweep) {
+    let len = v.len();
+    s.evals += 1;
+    let key = format!("{name}/batch_inversion/{desc}{tag}");
+    match mck::catch(|| batch_inversion(v)) {
         Err(p) => s.fail(format!("panic:{name}:batch_inversion:{}", p.location), key.clone(), format!("batch_inversion panicked at {} ({}) for {key}", p.location, p.message)),
         Ok(inv) => {
             if inv.len() != len {
@@ -76,6 +96,34 @@ pub fn batch_inversion_case<E: FieldElement>(name: &str, len: usize, zero_at: &[
                 }
             }
         },
+    }
+}
+
+/// every vector of length <= maxlen over an alphabet closed under inversion and negation
+/// {0, 1, -1, 2, 1/2, g, 1/g}: products of sub-runs hit 1, -1 and 0 in every position
+pub fn value_alphabet_cases<E: FieldElement>(name: &str, maxlen: usize, s: &mut Sweep) {
+    let two = E::ONE + E::ONE;
+    let g = label::<E>(3);
+    let mut alpha = vec![E::ZERO, E::ONE, -E::ONE, two, two.inv(), g, g.inv()];
+    // second internal representations of 0 and 1 where the field has them (f62)
+    for e in [E::ZERO, E::ONE] {
+        if let Some(t) = crate::fields::twin(e) {
+            alpha.push(t);
+        }
+    }
+    let mut idx = vec![0usize; maxlen];
+    for len in 1..=maxlen {
+        let total = alpha.len().pow(len as u32);
+        for code in 0..total {
+            let mut c = code;
+            for slot in idx.iter_mut().take(len) {
+                *slot = c % alpha.len();
+                c /= alpha.len();
+            }
+            let v: Vec<E> = idx[..len].iter().map(|i| alpha[*i]).collect();
+            s.nontrivial += 1;
+            batch_inversion_values(name, &v, &format!("alphabet/{:?}", &idx[..len]), "", s);
+        }
     }
 }
 
@@ -181,6 +229,7 @@ fn grouping_cases(s: &mut Sweep, max_rows: usize) {
 
 pub fn field_sweep<E: FieldElement>(name: &str, small_max: usize, all_patterns_up_to: usize, big_lens: &[usize], tag: &str) -> Sweep {
     let mut s = Sweep::new();
+    value_alphabet_cases::<E>(name, if small_max > 40 { 6 } else { 5 }, &mut s);
     for len in 0..=small_max {
         if len <= all_patterns_up_to {
             for mask in 0u32..(1 << len) {
@@ -318,7 +367,8 @@ pub fn run(args: &Args) {
     report.sample(json!({"function": "batch_inversion", "len": 10, "zeros_at": [0, 3, 9], "oracle": "inverse of every non-zero input, zero for every zero"}));
     report.sample(json!({"function": "get_power_series", "len": 1025, "oracle": "repeated multiplication"}));
     report.exhaustive = true;
-    report.bounds = json!({"lengths": format!("0..={small} and {big:?}"), "all_zero_patterns_up_to_length": patterns, "grouping_N": [1, 2, 4, 8, 16]});
+    report.bounds = json!({"lengths": format!("0..={small} and {big:?}"), "all_zero_patterns_up_to_length": patterns, "grouping_N": [1, 2, 4, 8, 16],
+        "value_alphabet": "all vectors of length <= 5 (thorough 6) over {0, 1, -1, 2, 1/2, g, 1/g}; inverse-pair vectors (x, 1/x, y, 1/y, ...) for lengths <= 8 and >= 1023 under every zero pattern"});
     report.rule = "one case per (function, length, zero pattern); elements are index-labelled so that any reordering is visible; non-trivial batch-inversion cases contain at least one zero".into();
     report.assumptions = vec!["serial build: thread-count and task-order variation of the same cases is explored in the conc build under E3".into()];
     report.finish(args)
